@@ -7,7 +7,7 @@ use crate::model::container::*;
 use crate::tape::Tape;
 use serde_avro_fast::ser::SerializerConfig;
 
-pub const RULE: &str = "case = (op list of accepted values over {serialize, serialize_all, push_serialized, finish_block} then into_inner, codec, approx_block_size) replayed against schedule-driven sinks and compared with the byte stream a Vec receives (same enforced sync marker): uniform k bytes per call for every k in {1,2,3,5,16,17,header-1,header,header+1,all}, tape-chosen irregular schedules, 'interrupted' injected at EVERY call index in turn, for sinks with and without vectored writes (a vectored write may accept a prefix ending inside any of the three slices); then a hard error and Ok(0) injected at EVERY call index in turn: the writer call during which it happens must return Err and the bytes delivered before it must be a prefix of the reference stream; \
+pub const RULE: &str = "case = (op list of accepted values over {serialize, serialize_all, push_serialized, finish_block} then into_inner, codec, approx_block_size) replayed against schedule-driven sinks and compared with the byte stream a Vec receives (same enforced sync marker): uniform k bytes per call for every k in {1,2,3,5,16,17,header-1,header,header+1,all}, tape-chosen irregular schedules, 'interrupted' injected at EVERY call index in turn, for sinks with and without vectored writes (a vectored write may accept a prefix ending inside any of the three slices); then a hard error (its ErrorKind rotating over Other, WouldBlock, BrokenPipe, TimedOut, WriteZero, UnexpectedEof, PermissionDenied, OutOfMemory, InvalidInput) and Ok(0) injected at EVERY call index in turn: the writer call during which it happens must return Err and the bytes delivered before it must be a prefix of the reference stream; \
 non-trivial = some partial vectored write ended strictly inside the header, data or sync slice, or an interruption hit a vectored call; distinct = hash of (schema JSON, history outline)";
 
 struct RunResult {
@@ -162,7 +162,11 @@ pub fn run(tape: &[u8], ctx: &mut Ctx) {
 		for i in 0..ncalls {
 			let mut sched: Vec<SinkAct> = vec![SinkAct::Accept(k); i];
 			sched.push(fault.clone());
-			let r = run_with_sink(&h, ScheduledSink::new(sched, k, vectored));
+			let mut sink = ScheduledSink::new(sched, k, vectored);
+			// every error kind other than Interrupted is final; the kind rotates with the call index
+			const KINDS: &[std::io::ErrorKind] = &[std::io::ErrorKind::Other, std::io::ErrorKind::WouldBlock, std::io::ErrorKind::BrokenPipe, std::io::ErrorKind::TimedOut, std::io::ErrorKind::WriteZero, std::io::ErrorKind::UnexpectedEof, std::io::ErrorKind::PermissionDenied, std::io::ErrorKind::OutOfMemory, std::io::ErrorKind::InvalidInput];
+			sink.hard_error_kind = KINDS[(i + header_len) % KINDS.len()];
+			let r = run_with_sink(&h, sink);
 			evals += 1;
 			match (&r.faulted_during, &r.failed_at) {
 				(Some(during), Some((at, _))) => {
